@@ -67,6 +67,27 @@ def near_boundary(pre, kind):
     return d <= BOUND_REL * max(1, abs(pre))
 
 
+def configure(torch, rng_tag, make, p, deq, all_precs, warm):
+    """a quantizer at precision p / mode deq, reached either directly by its constructor or through the public
+    `precision` / `dequantize` setters of Quantizer on an object built (and sometimes already used) with other values.
+    rng_tag in 0..4 selects the route deterministically."""
+    route = ('fresh', 'fresh', 'set-precision', 'set-precision-after-a-forward', 'set-dequantize')[rng_tag % 5]
+    if route == 'fresh':
+        return make(p, deq), route
+    if route == 'set-dequantize':
+        q = make(p, not deq)
+        q.dequantize = deq
+        return q, route
+    others = [b for b in all_precs if b != p]
+    p0 = others[(rng_tag // 5) % len(others)]
+    q = make(p0, deq)
+    if route.endswith('forward'):
+        with torch.no_grad():
+            q(warm.clone())
+    q.precision = p
+    return q, route + ':from-%d-bit' % p0
+
+
 def run(ctx):
     torch, PACTAct, MinMaxWeight, QuantizerBias = _env()
     built = ctx.build()
@@ -112,8 +133,10 @@ def run(ctx):
         W.append({'p': p, 'xs': xs, 'kind': 'w:reused-parameter:' + kind, 'exact': False, 'first': first, 'route': ctx.rng.choice(['mul_', 'copy_', 'assign'])})
     for c in W:
         x = torch.tensor(c['xs'], dtype=torch.float32).view(1, -1)
-        qi = MinMaxWeight(c['p'], 1, dequantize=False)
-        qf = MinMaxWeight(c['p'], 1, dequantize=True)
+        tagw = c.setdefault('tag', len([d for d in W if 'tag' in d]))
+        qi, c['route_int'] = configure(torch, tagw, lambda pp, dq: MinMaxWeight(pp, 1, dequantize=dq), c['p'], False, (0, 2, 3, 4, 5, 8), torch.ones(1, max(2, len(c['xs']))))
+        qf, c['route_fq'] = configure(torch, tagw + 2, lambda pp, dq: MinMaxWeight(pp, 1, dequantize=dq), c['p'], True, (0, 2, 3, 4, 5, 8), torch.ones(1, max(2, len(c['xs']))))
+        ctx.dist['w:how:' + c['route_int'].split(':')[0]] += 1
         if 'first' in c:
             outs = []
             for q in (qi, qf):
@@ -133,7 +156,7 @@ def run(ctx):
         sc = float(qi.scale.view(-1)[0])
         c.update(codes=yi, fq=yf, scale=sc)
         p = c['p']
-        info = {'quantizer': 'MinMaxWeight', 'bits': p, 'channel': c['xs'], 'int_out': yi, 'fq_out': yf, 'scale': sc}
+        info = {'quantizer': 'MinMaxWeight', 'bits': p, 'channel': c['xs'], 'int_out': yi, 'fq_out': yf, 'scale': sc, 'configured': [c['route_int'], c['route_fq']]}
         if 'first' in c:
             info.update(first_call_values=c['first'], route=c['route'], note='same Parameter object quantized first on first_call_values, then its .data changed to channel')
         oracle(all(math.isfinite(v) and v == int(v) for v in yi) and math.isfinite(sc), 'wq-not-integer-or-not-finite', info)
@@ -170,15 +193,17 @@ def run(ctx):
                 A.append({'p': p, 'clip': f32(clip), 'xs': pts[off:off + 64], 'kind': 'a:boundary'})
     for c in A:
         x = torch.tensor(c['xs'], dtype=torch.float32)
-        qi = PACTAct(c['p'], init_clip_val=c['clip'], dequantize=False)
-        qf = PACTAct(c['p'], init_clip_val=c['clip'], dequantize=True)
+        taga = c.setdefault('tag', len([d for d in A if 'tag' in d]))
+        qi, c['route_int'] = configure(torch, taga, lambda pp, dq: PACTAct(pp, init_clip_val=c['clip'], dequantize=dq), c['p'], False, (2, 3, 4, 6, 8), torch.ones(4))
+        qf, c['route_fq'] = configure(torch, taga + 2, lambda pp, dq: PACTAct(pp, init_clip_val=c['clip'], dequantize=dq), c['p'], True, (2, 3, 4, 6, 8), torch.ones(4))
+        ctx.dist['a:how:' + c['route_int'].split(':')[0]] += 1
         with torch.no_grad():
             yi = qi(x).tolist()
             yf = qf(x).tolist()
         sc = float(qi.scale)
         c.update(codes=yi, fq=yf, scale=sc)
         p, clip = c['p'], c['clip']
-        info = {'quantizer': 'PACTAct', 'bits': p, 'clip': clip, 'inputs': c['xs'], 'int_out': yi, 'fq_out': yf, 'scale': sc}
+        info = {'quantizer': 'PACTAct', 'bits': p, 'clip': clip, 'inputs': c['xs'], 'int_out': yi, 'fq_out': yf, 'scale': sc, 'configured': [c['route_int'], c['route_fq']]}
         oracle(all(math.isfinite(v) and v == int(v) and 0 <= v <= 2 ** p - 1 for v in yi), 'aq-out-of-range', info)
         oracle(all(v == 0 for xv, v in zip(c['xs'], yi) if xv <= 0), 'aq-nonpositive-not-zero', info)
         tops = {v for xv, v in zip(c['xs'], yi) if xv >= clip}
@@ -317,12 +342,37 @@ def replay(r):
     torch, PACTAct, MinMaxWeight, QuantizerBias = _env()
     c = r.get('case', {})
     c = c.get('case', c)
+    def from_route(make, p, deq, route, warm):
+        head, _, frm = route.partition(':from-')
+        if head == 'fresh':
+            return make(p, deq)
+        if head == 'set-dequantize':
+            q = make(p, not deq)
+            q.dequantize = deq
+            return q
+        q = make(int(frm.split('-')[0]), deq)
+        if head.endswith('forward'):
+            with torch.no_grad():
+                q(warm.clone())
+        q.precision = p
+        return q
+    routes = c.get('configured', ['fresh', 'fresh'])
     if c.get('quantizer') == 'PACTAct':
-        q = PACTAct(c['bits'], init_clip_val=c['clip'], dequantize=False)
-        print('replayed int output:', q(torch.tensor(c['inputs'])).tolist(), 'scale', float(q.scale))
+        mk = lambda pp, dq: PACTAct(pp, init_clip_val=c['clip'], dequantize=dq)
+        qi = from_route(mk, c['bits'], False, routes[0], torch.ones(4))
+        qf = from_route(mk, c['bits'], True, routes[1], torch.ones(4))
+        x = torch.tensor(c['inputs'], dtype=torch.float32)
+        with torch.no_grad():
+            yi, yf = qi(x).tolist(), qf(x).tolist()
+        sc = float(qi.scale)
+        print('replayed (configured %s): int output' % routes, yi, 'fake-quantized', yf, 'reported scale', sc)
+        pb = c['bits']
+        ok = all(v == int(v) and 0 <= v <= 2 ** pb - 1 for v in yi) and all(abs(f - v * sc) <= 1e-5 * max(abs(f), 1e-30) for f, v in zip(yf, yi))
+        print('required: integers in [0, 2^%d - 1] and fake-quantized = integer x reported scale ->' % pb, 'holds' if ok else 'VIOLATED')
+        return 0 if ok and yi == c.get('int_out', yi) else 1
     elif c.get('quantizer') == 'MinMaxWeight':
-        q = MinMaxWeight(c['bits'], 1, dequantize=False)
         x = torch.tensor(c['channel'], dtype=torch.float32).view(1, -1)
+        q = from_route(lambda pp, dq: MinMaxWeight(pp, 1, dequantize=dq), c['bits'], False, routes[0], torch.ones(1, max(2, x.shape[1])))
         if 'first_call_values' in c:
             w = torch.nn.Parameter(torch.tensor(c['first_call_values'], dtype=torch.float32).view(1, -1))
             q(w)
